@@ -4,6 +4,7 @@ import (
 	"context"
 	"fmt"
 	"net"
+	"os"
 	"regexp"
 	"runtime"
 	"sort"
@@ -57,14 +58,23 @@ import (
 //
 //   - every request issued through Client.Request is retried for at most the
 //     retry timeout, 30 s for all keys but Join/Sync/Heartbeat (config.go,
-//     RetryTimeoutFn doc), evaluated after an attempt failed, so a chain ends
-//     at most one request timeout later; the scenarios use
-//     RequestTimeoutOverhead(1s) (nscen.BaseOpts) and OffsetCommit, LeaveGroup,
-//     ShareAcknowledge and ShareGroupHeartbeat carry no broker-side wait;
-//   - a classic group Close runs at most two such chains in sequence (commit in
-//     OnPartitionsRevoked, then LeaveGroup); a share group Close also two
-//     (ShareAcknowledge with the final epoch per source in parallel, then the
-//     leaving ShareGroupHeartbeat);
+//     RetryTimeoutFn doc). The timeout is evaluated after an attempt failed
+//     ("if the time since the start plus the backoff is less than the retry
+//     timeout, the request is issued again"), so a chain ends at most one
+//     attempt later; one attempt against a silent broker costs the read
+//     timeout of the ApiVersions handshake on a fresh connection plus the read
+//     timeout of the request itself, each RequestTimeoutOverhead = 1 s here
+//     (nscen.BaseOpts; OffsetCommit, LeaveGroup, ShareAcknowledge and
+//     ShareGroupHeartbeat carry no broker-side wait). chain = 30 s + 3 x 1 s.
+//   - a classic group Close runs at most three such chains in sequence:
+//     LeaveGroupContext documents that "if a rebalance is in progress, this
+//     function waits for the rebalance to complete" - that rebalance's
+//     OnPartitionsRevoked commit (1), then the commit in the revoke of the
+//     leave itself (2), then LeaveGroup (3). (Measured on the unchanged tree
+//     with all connections black-holed: 33 s + 32 s + 32 s, replay analysed.)
+//     A share group Close runs the final ShareAcknowledge per source (in
+//     parallel) and the leaving ShareGroupHeartbeat, possibly after an ack
+//     flush already in flight: the same three-chain bound is used.
 //   - then one second to kill fetch sessions and one second for the final
 //     client-metrics push (client.go close).
 //
@@ -72,12 +82,13 @@ import (
 const (
 	retryTimeout = 30 * time.Second
 	reqTimeout   = 1 * time.Second
+	chain        = retryTimeout + 3*reqTimeout
 	sessKill     = 1 * time.Second
 	metricsQuit  = 1 * time.Second
 	slack        = 30 * time.Second
 
 	boundPlain = sessKill + metricsQuit + slack
-	boundGroup = 2*(retryTimeout+reqTimeout) + sessKill + metricsQuit + slack
+	boundGroup = 3*chain + sessKill + metricsQuit + slack
 )
 
 type mode int
@@ -236,6 +247,12 @@ func (st *state) thread(name string, body func(t *netctl.Thread)) {
 // client builds the controlled client "c" (through the black-hole wrapper).
 func (st *state) client(c *kfake.Cluster, opts ...kgo.Opt) *kgo.Client {
 	opts = append(opts, kgo.Dialer((&dialer{st.bh, st.x.Dialer("c")}).dial))
+	if os.Getenv("C13_KGOLOG") != "" { // analysis aid: the client's own log with virtual timestamps
+		x := st.x
+		opts = append(opts, kgo.WithLogger(kgo.BasicLogger(os.Stderr, kgo.LogLevelDebug, func() string {
+			return fmt.Sprintf("[%8.3fs] kgo: ", x.Elapsed().Seconds())
+		})))
+	}
 	st.cl = nscen.NewClient(st.x, "c", c, opts...)
 	return st.cl
 }
@@ -628,10 +645,19 @@ func groupWorkload(name string, block bool, n int) *workload {
 			opts = append(opts, kgo.BlockRebalanceOnPoll())
 		}
 		st.client(c, opts...)
+		// Member B is created by the workload thread; if the execution ends
+		// early (a diverged replay skips Final) the cleanup may already have
+		// run, and B must then not be created at all.
 		var b *kgo.Client
+		var bmu sync.Mutex
+		cleaned := false
 		st.extraClose = append(st.extraClose, func() {
-			if b != nil {
-				b.Close()
+			bmu.Lock()
+			cleaned = true
+			bb := b
+			bmu.Unlock()
+			if bb != nil {
+				bb.Close()
 			}
 		})
 		allow := func(t *netctl.Thread, i int) {
@@ -649,7 +675,11 @@ func groupWorkload(name string, block bool, n int) *workload {
 			}
 			// A second member joins: a rebalance is in progress from here on.
 			st.step(t, "member-B-joins")
-			b = nscen.Helper(x, c, gopts()...)
+			bmu.Lock()
+			if !cleaned {
+				b = nscen.Helper(x, c, gopts()...)
+			}
+			bmu.Unlock()
 			for i := 1; i <= 3; i++ {
 				st.step(t, fmt.Sprintf("poll-%d", i))
 				_, ok := st.poll(1500*time.Millisecond, 2)
